@@ -565,19 +565,40 @@ func runHTTPErrors(c *harness.Ctx) harness.Result {
 	var urls []string
 	var want int64
 	ngood, nbad := 1+r.Intn(3), 1+r.Intn(2)
+	timeUnits, unitRot := r.Intn(2) == 0, r.Intn(3)
+	if timeUnits {
+		ngood = 3 + r.Intn(2) // three units meet in one merge step
+	}
 	for i := 0; i < ngood; i++ {
 		p := genProfile(r, 10*(i+1))
+		// the good sources report the time column in their own unit; the report is asked for in
+		// nanoseconds, so every source counts with value x unit whatever the others do
+		unitName, unitNS := "nanoseconds", int64(1)
+		if timeUnits {
+			unitName = []string{"milliseconds", "nanoseconds", "microseconds"}[(i+unitRot)%3]
+			unitNS = map[string]int64{"milliseconds": 1000000, "nanoseconds": 1, "microseconds": 1000}[unitName]
+		}
+		for _, st := range p.SampleType {
+			if st.Type == "v" {
+				st.Unit = unitName
+			}
+		}
 		for _, sm := range p.Sample {
 			for k := range sm.Value {
-				sm.Value[k] = int64(10 * (i + 1))
+				sm.Value[k] = int64(10*(i+1) + 1)
 			}
-			want += sm.Value[0]
+			want += sm.Value[0] * unitNS
 		}
 		var buf bytes.Buffer
 		p.Write(&buf)
 		host := fmt.Sprintf("good%d.test", i)
 		tr[host] = respSpec{200, http.Header{}, buf.Bytes()}
-		urls = append(urls, "http://"+host+"/debug/pprof/heap")
+		u := "http://" + host + "/debug/pprof/heap"
+		if r.Intn(4) == 0 {
+			// a pre-signed URL: longer than any file name can be
+			u += "?token=" + strings.Repeat("t", []int{300, 4096, 5000, 70000}[r.Intn(4)])
+		}
+		urls = append(urls, u)
 	}
 	var shapes []string
 	for i := 0; i < nbad; i++ {
@@ -596,9 +617,13 @@ func runHTTPErrors(c *harness.Ctx) harness.Result {
 		shapes = append(shapes, fmt.Sprintf("%d %v %q", st, h, body))
 	}
 	r.Shuffle(len(urls), func(i, j int) { urls[i], urls[j] = urls[j], urls[i] })
-	desc := fmt.Sprintf("%d good sources and %d answering %v, in the order %v", ngood, nbad, shapes, urls)
+	var shown []string
+	for _, u := range urls {
+		shown = append(shown, harness.Trunc(u, 60))
+	}
+	desc := fmt.Sprintf("%d good sources and %d answering %v, in the order %v", ngood, nbad, shapes, shown)
 	res := harness.Result{NonTrivial: true, Sig: desc, Sample: desc}
-	s := &drv.Session{Flags: &drv.Flags{Bools: map[string]bool{"top": true, "functions": true, "flat": true, "trim": false}, Strs: map[string]string{"output": "out", "symbolize": "none", "sample_index": "v"}, Args: urls}, RoundTr: tr}
+	s := &drv.Session{Flags: &drv.Flags{Bools: map[string]bool{"top": true, "functions": true, "flat": true, "trim": false}, Strs: map[string]string{"output": "out", "symbolize": "none", "sample_index": "v", "unit": map[bool]string{true: "nanoseconds", false: "minimum"}[timeUnits]}, Args: urls}, RoundTr: tr}
 	rr := s.Run()
 	c.Stat("http_error_sessions", 1)
 	if rr.Panic != "" {
@@ -863,7 +888,7 @@ func init() {
 			"part binaries: local copies of equally named binaries in a symfs-style tree under PPROF_BINARY_PATH, no build ids, 2-3 good sources plus an optional failing one: the saved profile names every source's own copy. part httperrors: pprof's own HTTP fetcher, 1-3 good sources and 1-2 answering with an error status in every shape (X-Go-Pprof header or not, content types, empty body, message with/without final newline, several lines, junk): one error line each, report = good sources. " +
 			"part tls: pprof's own transport against two loopback TLS servers with self-signed certificates, one listed as https+insecure:// and one as https://, answered in a forced order: the https source must fail with one error line and the report be that of the other source alone. A case that does not finish within 2 min in 3 of 3 fresh processes is a hang (violation). oracle: fails iff no source (or, with bases, no base) succeeded; exactly one UI error line per failed source naming it and none for good ones; byte-identical -traces across completion orders; -traces equal to the run listing only the successful sources; -top equal to the entry-wise signed sum of the successful profiles' reference reports. non-trivial = at least 2 sources; distinct = run description; distinct_observed = distinct release-order prefixes",
 		Assumptions:   []string{"failing subsets and kinds are enumerated per list shape; completion orders are sampled (3-6 of n! per chunk)"},
-		Parts:         []harness.Part{{Name: "fetch", Quick: 400, Thor: 12000, Run: run}, {Name: "tls", Quick: 8, Thor: 200, Run: RunTLS}, {Name: "binaries", Quick: 40, Thor: 2000, Run: runBinaries}, {Name: "httperrors", Quick: 60, Thor: 3000, Run: runHTTPErrors}},
+		Parts:         []harness.Part{{Name: "fetch", Quick: 400, Thor: 12000, Run: run}, {Name: "tls", Quick: 8, Thor: 200, Run: RunTLS}, {Name: "binaries", Quick: 40, Thor: 2000, Run: runBinaries}, {Name: "httperrors", Quick: 120, Thor: 4000, Run: runHTTPErrors}},
 		CaseTimeout:   2 * time.Minute,
 		HangTries:     3,
 		MinNonTrivial: func(string) int { return 100 },
